@@ -406,7 +406,7 @@ func HeaderCells() []Cell {
 // through http.Header, the client must find them again), required and optional, on 200 and default.
 func HeaderNameCells() []Cell {
 	var out []Cell
-	for _, name := range []string{"ETag", "x-rate-limit", "X-Request-ID", "WWW-Authenticate", "X-Canonical"} {
+	for _, name := range []string{"ETag", "x-rate-limit", "X-Request-ID", "WWW-Authenticate", "X-Canonical", "X-Content-Type-Options", "Content-Disposition", "Location", "Retry-After"} {
 		for _, req := range []bool{false, true} {
 			for _, status := range []string{"200", "default"} {
 				s, _, op := Base()
